@@ -98,14 +98,14 @@ func setFsizeLimit(k uint64) error {
 const rlimInf = ^uint64(0)
 
 type saveCase struct {
-	Doc   string `json:"doc"`
-	What  string `json:"what"` // fault | path
-	K     int64  `json:"k"`    // fault offset (-1 none)
-	Old   int    `json:"old_len"`
-	Path  string `json:"path_kind,omitempty"`
-	Len   int    `json:"package_len"`
-	OK    bool   `json:"save_returned_nil"`
-	FLen  int    `json:"file_len_after"`
+	Doc  string `json:"doc"`
+	What string `json:"what"` // fault | path
+	K    int64  `json:"k"`    // fault offset (-1 none)
+	Old  int    `json:"old_len"`
+	Path string `json:"path_kind,omitempty"`
+	Len  int    `json:"package_len"`
+	OK   bool   `json:"save_returned_nil"`
+	FLen int    `json:"file_len_after"`
 }
 
 func runC05(cfg *runCfg) error {
